@@ -193,7 +193,7 @@ pub fn cases(prop: &str, seed: u64, tier: &str) -> Vec<String> {
             }
         }
         "C19" => {
-            let b = budget(tier, 1500, 60000);
+            let b = budget(tier, 1500, 180000);
             // deterministic: the first 50 items span more than 64 KiB, the deciding pair lies behind byte 65536
             for n in [46usize, 47, 48, 49, 50] {
                 let mut s = String::new();
@@ -221,7 +221,7 @@ pub fn cases(prop: &str, seed: u64, tier: &str) -> Vec<String> {
             }
         }
         "C15" => {
-            let b = budget(tier, 25, 400);
+            let b = budget(tier, 25, 1200);
             {
                 // sections larger than 1 MiB: one class with 32000 member lines (few distinct strings)
                 let mut m = String::from("com.A -> a:\n");
@@ -381,7 +381,7 @@ pub fn cases(prop: &str, seed: u64, tier: &str) -> Vec<String> {
             }
         }
         "C20" => {
-            let b = budget(tier, 60, 1500);
+            let b = budget(tier, 60, 4500);
             for _ in 0..b.mappings {
                 let m = gen_mapping(&mut r, &REP);
                 if !representable(m.as_bytes()) {
@@ -511,7 +511,7 @@ pub fn cases(prop: &str, seed: u64, tier: &str) -> Vec<String> {
             std_cases(&mut out, &mut r, &["HB", "HD", "HW"], if tier == "quick" { 300 } else { 8000 });
             fixed_shapes(&mut out, &mut r, true);
             fixed_shapes(&mut out, &mut r, false);
-            let b = budget(tier, 400, 20000);
+            let b = budget(tier, 400, 60000);
             for _ in 0..(if tier == "quick" { 3 } else { 30 }) {
                 // VALID large caches: every query must answer without panic and correctly (search code on
                 // big runs); asked through the mapping so that the answers are compared with the specification
@@ -568,7 +568,7 @@ pub fn cases(prop: &str, seed: u64, tier: &str) -> Vec<String> {
         }
         "C07" => {
             std_cases(&mut out, &mut r, &["HL", "HT", "HU"], if tier == "quick" { 200 } else { 5000 });
-            let b = budget(tier, 250, 8000);
+            let b = budget(tier, 250, 24000);
             for _ in 0..(if tier == "quick" { 2 } else { 10 }) {
                 // large method groups: frames of the heavy classes through the text API
                 let m = gen_big_mapping(&mut r);
@@ -663,7 +663,7 @@ pub fn cases(prop: &str, seed: u64, tier: &str) -> Vec<String> {
             }
         }
         "C16" => {
-            let b = budget(tier, 250, 8000);
+            let b = budget(tier, 250, 24000);
             {
                 // bounded-exhaustive: every descriptor with at most 3 parameters over a 6-type alphabet and 3
                 // return types, and (thorough: all, quick: a sample of) their single-character deletions / replacements
